@@ -412,3 +412,203 @@ proof fn thm_members(m: Seq<(Seq<char>, J)>, s: Strat, pm: Seq<(Seq<char>, J)>, 
         }
     }
 }
+
+// hidden member i's own digest
+spec fn m_dig(m: Seq<(Seq<char>, J)>, s: Strat, ds: DS, off: int, i: int) -> Dig { m_disc(m, s, ds, off, i).hash@ }
+// member i is hidden, its disclosure is in the map, and its digest is among the first n entries of the list
+spec fn matched(m: Seq<(Seq<char>, J)>, s: Strat, sdl: Seq<J>, ds: DS, off: int, dm: DM, n: int, i: int) -> bool {
+    0 <= i < m.len() && m_hid(m, s, i) && dm.contains_key(m_dig(m, s, ds, off, i))
+        && exists|q: int| 0 <= q < n && #[trigger] sdl[q] == J::Str(m_dig(m, s, ds, off, i))
+}
+// what u_digests has produced after the first n entries of the digest list
+spec fn dig_inv(out: Seq<(Seq<char>, J)>, c: SS, out0: Seq<(Seq<char>, J)>, m: Seq<(Seq<char>, J)>, s: Strat, pm: Seq<(Seq<char>, J)>, sdl: Seq<J>,
+                ds: DS, off: int, dm: DM, n: int) -> bool {
+    keys_unique(out)
+    && (forall|k: Seq<char>| #[trigger] j_has(out0, k) ==> j_has(out, k) && j_get(out, k) == j_get(out0, k))
+    && (forall|k: Seq<char>| #[trigger] j_has(out, k) ==> j_has(out0, k) || exists|i: int| matched(m, s, sdl, ds, off, dm, n, i) && (#[trigger] m[i]).0 == k)
+    && (forall|i: int| #[trigger] matched(m, s, sdl, ds, off, dm, n, i) ==> j_has(out, m[i].0)
+            && is_view(j_get(out, m[i].0)->Some_0, m[i].1, m_sub(m, s, i), ds, m_off(m, s, off, i), dm))
+    && (forall|x: Dig| #[trigger] c.contains(x) ==> (exists|q: int| 0 <= q < n && #[trigger] sdl[q] == J::Str(x))
+            || exists|i: int| #[trigger] matched(m, s, sdl, ds, off, dm, n, i) && occ_member(m, s, pm, ds, off, i).contains(x))
+}
+proof fn lemma_matched_mono(m: Seq<(Seq<char>, J)>, s: Strat, sdl: Seq<J>, ds: DS, off: int, dm: DM, n: int, i: int)
+    requires matched(m, s, sdl, ds, off, dm, n, i)
+    ensures matched(m, s, sdl, ds, off, dm, n + 1, i)
+{
+    let q = choose|q: int| 0 <= q < n && #[trigger] sdl[q] == J::Str(m_dig(m, s, ds, off, i));
+    assert(0 <= q < n + 1 && sdl[q] == J::Str(m_dig(m, s, ds, off, i)));
+}
+proof fn thm_digests(m: Seq<(Seq<char>, J)>, s: Strat, pm: Seq<(Seq<char>, J)>, ds: DS, off: int, dm: DM, seen2: SS, out0: Seq<(Seq<char>, J)>, n: nat)
+    requires obj_ctx(m, s, pm, ds, off, dm), n <= sd_strs(pm).len(),
+        keys_unique(out0),
+        forall|k: Seq<char>| #[trigger] j_has(out0, k) ==> exists|i: int| 0 <= i < m.len() && (#[trigger] m[i]).0 == k && !m_hid(m, s, i),
+        forall|x: Dig| jstrs(sd_strs(pm)).contains(x) ==> !seen2.contains(x),
+        forall|i: int, x: Dig| 0 <= i < m.len() && m_hid(m, s, i) && #[trigger] occ_member(m, s, pm, ds, off, i).contains(x) ==> !seen2.contains(x),
+    ensures u_digests(sd_strs(pm).take(n as int), dm, seen2, out0) matches UR::Ok(out, c)
+        && dig_inv(out, c, out0, m, s, pm, sd_strs(pm), ds, off, dm, n as int)
+    decreases m, n + 1
+{
+    let sdl = sd_strs(pm);
+    if n == 0 {
+        assert(sdl.take(0) =~= Seq::<J>::empty());
+    } else {
+        let q = n - 1;
+        let t = sdl.take(n as int);
+        assert(t.drop_last() =~= sdl.take(q));
+        assert(t.last() == sdl[q]);
+        thm_digests(m, s, pm, ds, off, dm, seen2, out0, q as nat);
+        let out1 = u_digests(sdl.take(q), dm, seen2, out0)->Ok_0;
+        let c1 = u_digests(sdl.take(q), dm, seen2, out0)->Ok_1;
+        // every entry of the list is a string
+        assert(sdl[q] is Str) by {
+            match j_get(pm, K_SD()) { Some(J::Arr(a)) => { assert(all_str(a)); assert(a[q] is Str); }, _ => {} }
+        }
+        let x = sdl[q]->Str_0;
+        assert(sdl.contains(J::Str(x))) by { assert(sdl[q] == J::Str(x)); }
+        lemma_jstrs(sdl, x);
+        let seen3 = seen2.union(c1);
+        // x has not been met before
+        assert(!seen3.contains(x)) by {
+            if c1.contains(x) {
+                if exists|q2: int| 0 <= q2 < q && #[trigger] sdl[q2] == J::Str(x) {
+                    let q2 = choose|q2: int| 0 <= q2 < q && #[trigger] sdl[q2] == J::Str(x);
+                    assert(sdl[q2] != sdl[q]);
+                } else {
+                    let i2 = choose|i2: int| #[trigger] matched(m, s, sdl, ds, off, dm, q, i2) && occ_member(m, s, pm, ds, off, i2).contains(x);
+                    lemma_occ_members_has(m, s, pm, ds, off, i2, m.len());
+                    assert(occ_members(m, s, pm, ds, off, m.len()).contains(x));
+                }
+            }
+        }
+        assert forall|i: int| #[trigger] matched(m, s, sdl, ds, off, dm, q, i) implies matched(m, s, sdl, ds, off, dm, n as int, i) by {
+            lemma_matched_mono(m, s, sdl, ds, off, dm, q, i);
+        }
+        if !dm.contains_key(x) {
+            assert(u_digests(t, dm, seen2, out0) == UR::Ok(out1, c1.insert(x)));
+            assert forall|i: int| #[trigger] matched(m, s, sdl, ds, off, dm, n as int, i) implies matched(m, s, sdl, ds, off, dm, q, i) by {
+                let q2 = choose|q2: int| 0 <= q2 < n && #[trigger] sdl[q2] == J::Str(m_dig(m, s, ds, off, i));
+                if q2 == q { assert(m_dig(m, s, ds, off, i) == x); }
+                assert(0 <= q2 < q && sdl[q2] == J::Str(m_dig(m, s, ds, off, i)));
+            }
+            assert forall|y: Dig| #[trigger] c1.insert(x).contains(y) implies (exists|q2: int| 0 <= q2 < n && #[trigger] sdl[q2] == J::Str(y))
+                || exists|i: int| #[trigger] matched(m, s, sdl, ds, off, dm, n as int, i) && occ_member(m, s, pm, ds, off, i).contains(y) by {
+                if y == x { assert(sdl[q] == J::Str(y)); }
+                else if exists|q2: int| 0 <= q2 < q && #[trigger] sdl[q2] == J::Str(y) {
+                    let q2 = choose|q2: int| 0 <= q2 < q && #[trigger] sdl[q2] == J::Str(y);
+                    assert(0 <= q2 < n && sdl[q2] == J::Str(y));
+                } else {
+                    let i2 = choose|i2: int| #[trigger] matched(m, s, sdl, ds, off, dm, q, i2) && occ_member(m, s, pm, ds, off, i2).contains(y);
+                    assert(matched(m, s, sdl, ds, off, dm, n as int, i2));
+                }
+            }
+        } else {
+            // the digest belongs to a disclosure of this issuance: it is the digest of one hidden member of this object
+            let idx = choose|idx: int| 0 <= idx < ds.len() && (#[trigger] ds[idx]).hash@ == x && dm[x] == J::Arr(dj(ds[idx]));
+            assert(!decoy_digest(J::Str(x)));
+            assert(member_digest(m, s, ds, off, m.len(), sdl[q]));
+            let i = choose|i: int| 0 <= i < m.len() && i < m.len() && sd_spec(s, (#[trigger] m[i]).0) && sdl[q] == member_digest_at(m, s, ds, off, i);
+            lemma_m_bounds(m, s, off, i, m.len());
+            let d = m_disc(m, s, ds, off, i);
+            let own = m_off(m, s, off, i) + hcount(m[i].1, m_sub(m, s, i));
+            assert(ds[own] == d && d.hash@ == x);
+            assert(idx == own);
+            lemma_enc_members_at(m, s, pm, sdl, ds, off, m.len(), i);
+            lemma_entries_elem(m, i);
+            lemma_consts();
+            let k = m[i].0;
+            let sub = m_sub(m, s, i);
+            let o = m_off(m, s, off, i);
+            assert(dm[x] == J::Arr(dj(d)) && dj(d).len() == 3 && dj(d)[1] == J::Str(k));
+            assert(matched(m, s, sdl, ds, off, dm, n as int, i)) by { assert(sdl[q] == J::Str(m_dig(m, s, ds, off, i))); }
+            // the name is new
+            assert(!j_has(out1, k)) by {
+                if j_has(out1, k) {
+                    if j_has(out0, k) {
+                        let i2 = choose|i2: int| 0 <= i2 < m.len() && (#[trigger] m[i2]).0 == k && !m_hid(m, s, i2);
+                        if i2 < i { assert(m[i2].0 != m[i].0); } else if i < i2 { assert(m[i].0 != m[i2].0); }
+                    } else {
+                        let i2 = choose|i2: int| matched(m, s, sdl, ds, off, dm, q, i2) && (#[trigger] m[i2]).0 == k;
+                        if i2 < i { assert(m[i2].0 != m[i].0); } else if i < i2 { assert(m[i].0 != m[i2].0); }
+                        let q2 = choose|q2: int| 0 <= q2 < q && #[trigger] sdl[q2] == J::Str(m_dig(m, s, ds, off, i2));
+                        assert(sdl[q2] != sdl[q]);
+                    }
+                }
+            }
+            let seen4 = seen3.insert(x);
+            let oc = occ_member(m, s, pm, ds, off, i);
+            lemma_occ_members_has(m, s, pm, ds, off, i, m.len());
+            lemma_sep_members_pair(m, s, pm, ds, off, m.len(), i, i);
+            assert forall|y: Dig| oc.contains(y) implies !seen4.contains(y) by {
+                assert(occ_members(m, s, pm, ds, off, m.len()).contains(y));
+                if y == x { }
+                if c1.contains(y) {
+                    if exists|q2: int| 0 <= q2 < q && #[trigger] sdl[q2] == J::Str(y) {
+                        let q2 = choose|q2: int| 0 <= q2 < q && #[trigger] sdl[q2] == J::Str(y);
+                        assert(sdl.contains(J::Str(y)));
+                        lemma_jstrs(sdl, y);
+                    } else {
+                        let i2 = choose|i2: int| #[trigger] matched(m, s, sdl, ds, off, dm, q, i2) && occ_member(m, s, pm, ds, off, i2).contains(y);
+                        if i2 == i {
+                            let q2 = choose|q2: int| 0 <= q2 < q && #[trigger] sdl[q2] == J::Str(m_dig(m, s, ds, off, i2));
+                            assert(sdl[q2] != sdl[q]);
+                        }
+                        lemma_sep_members_pair(m, s, pm, ds, off, m.len(), i, i2);
+                    }
+                }
+            }
+            assert(m_p(m, s, pm, ds, off, i) == dj(d)[2]);
+            thm_val(m[i].1, sub, dj(d)[2], ds, o, dm, seen4);
+            let v = u_val(dj(d)[2], dm, seen4)->Ok_0;
+            let c2 = u_val(dj(d)[2], dm, seen4)->Ok_1;
+            let out = out1.push((k, v));
+            assert(u_digests(t, dm, seen2, out0) == UR::Ok(out, c1.union(c2).insert(x)));
+            lemma_push_unique(out1, k, v);
+            lemma_j_get_push_new(out1, k, v);
+            assert forall|k2: Seq<char>| #[trigger] j_has(out0, k2) implies j_has(out, k2) && j_get(out, k2) == j_get(out0, k2) by {
+                lemma_j_get_push(out1, (k, v), k2);
+            }
+            assert forall|k2: Seq<char>| #[trigger] j_has(out, k2) implies j_has(out0, k2) || exists|i2: int| matched(m, s, sdl, ds, off, dm, n as int, i2) && (#[trigger] m[i2]).0 == k2 by {
+                lemma_j_has_iff(out, k2);
+                let r = choose|r: int| 0 <= r < out.len() && #[trigger] out[r].0 == k2;
+                if r < out1.len() {
+                    assert(out1[r].0 == k2);
+                    lemma_j_has_iff(out1, k2);
+                    if !j_has(out0, k2) {
+                        let i2 = choose|i2: int| matched(m, s, sdl, ds, off, dm, q, i2) && (#[trigger] m[i2]).0 == k2;
+                        assert(matched(m, s, sdl, ds, off, dm, n as int, i2));
+                    }
+                } else { assert(m[i].0 == k2); }
+            }
+            assert forall|i2: int| #[trigger] matched(m, s, sdl, ds, off, dm, n as int, i2) implies j_has(out, m[i2].0)
+                && is_view(j_get(out, m[i2].0)->Some_0, m[i2].1, m_sub(m, s, i2), ds, m_off(m, s, off, i2), dm) by {
+                if i2 != i {
+                    let q2 = choose|q2: int| 0 <= q2 < n && #[trigger] sdl[q2] == J::Str(m_dig(m, s, ds, off, i2));
+                    if q2 == q {
+                        // two hidden members with the same digest: the same disclosure position
+                        lemma_m_bounds(m, s, off, i2, m.len());
+                        let own2 = m_off(m, s, off, i2) + hcount(m[i2].1, m_sub(m, s, i2));
+                        assert(ds[own2].hash@ == ds[own].hash@);
+                        if i2 < i { lemma_hcount_members_mono(m, s, (i2 + 1) as nat, i as nat); } else { lemma_hcount_members_mono(m, s, (i + 1) as nat, i2 as nat); }
+                        assert(own2 != own);
+                        if own2 < own { assert(ds[own2].hash@ != ds[own].hash@); } else { assert(ds[own].hash@ != ds[own2].hash@); }
+                    }
+                    assert(0 <= q2 < q && sdl[q2] == J::Str(m_dig(m, s, ds, off, i2)));
+                    assert(matched(m, s, sdl, ds, off, dm, q, i2));
+                    lemma_j_get_push(out1, (k, v), m[i2].0);
+                }
+            }
+            assert forall|y: Dig| #[trigger] c1.union(c2).insert(x).contains(y) implies (exists|q2: int| 0 <= q2 < n && #[trigger] sdl[q2] == J::Str(y))
+                || exists|i2: int| #[trigger] matched(m, s, sdl, ds, off, dm, n as int, i2) && occ_member(m, s, pm, ds, off, i2).contains(y) by {
+                if y == x { assert(sdl[q] == J::Str(y)); }
+                else if c2.contains(y) { assert(oc.contains(y)); }
+                else if exists|q2: int| 0 <= q2 < q && #[trigger] sdl[q2] == J::Str(y) {
+                    let q2 = choose|q2: int| 0 <= q2 < q && #[trigger] sdl[q2] == J::Str(y);
+                    assert(0 <= q2 < n && sdl[q2] == J::Str(y));
+                } else {
+                    let i2 = choose|i2: int| #[trigger] matched(m, s, sdl, ds, off, dm, q, i2) && occ_member(m, s, pm, ds, off, i2).contains(y);
+                    assert(matched(m, s, sdl, ds, off, dm, n as int, i2));
+                }
+            }
+        }
+    }
+}
